@@ -163,8 +163,13 @@ func mapOf(prefix string, h int) map[string]string {
 	if h == 0 {
 		return nil
 	}
-	return map[string]string{prefix: fmt.Sprintf("%d", h), "X-Verif": "v\"é"}
+	return map[string]string{prefix: fmt.Sprintf("%d", h), "X-Verif": verifCompanion[h%len(verifCompanion)]}
 }
+
+// values a header / trace map must bring back byte for byte whatever the store's encoding of the map (twin: COMPANION in
+// lib/queuecheck.py): quotes and non-ASCII, backslashes that look like escapes (valid and invalid ones), HTML-sensitive characters,
+// plain text, a tab, the JSON-hostile line separator
+var verifCompanion = []string{"v\"é", "plain-value", "C:\\new\\table.json", "^a\\\\d+$", "C:\\hooks\\inbox", "a<b>&c", "tab\there", "sep\u2028end", "\\u0041\\"}
 
 func toRow(e queue.Envelope) qRow {
 	r := qRow{ID: e.ID, Route: e.Route, Target: e.Target, State: string(e.State), Attempt: e.Attempt,
